@@ -152,8 +152,6 @@ class Ctx:
             self.violation(case, v.what, **v.detail)
         except Inconclusive:
             raise
-        except RecursionError:
-            raise
         except Exception as e:  # noqa - the oracle predicted a normal return
             self.violation(case, f'unexpected {type(e).__name__}: {e}', traceback=traceback.format_exc()[-3000:])
 
